@@ -369,7 +369,7 @@ def main_check(check_factory, argv=None):
     n_reg = 0
     if os.path.isdir(reg_dir):
         for fn in sorted(os.listdir(reg_dir)):
-            if not fn.startswith('reg-'):
+            if not fn.startswith('reg-') or not fn.endswith('.json'):
                 continue
             with open(os.path.join(reg_dir, fn)) as f:
                 doc = json.load(f)
